@@ -47,6 +47,10 @@ CHECKS = {
   technique="TLA+ spec (NodeClock.tla) model-checked with TLC over writes/remote deltas/checkpoints/crash/recovery; exported lives replayed on a real ReplicatedShardedState; traces validated by TLC (NodeClockTrace.tla)",
   text="design level: StampAboveSeen, NeverRepeats, NewestWins, ClockDominates over all interleavings of local writes, remote stamps, checkpoints and up to 2 crashes, with the as-built counterexample; implementation level: every exported life and thousands of random ones run on a real node (16 shard actors, snapshot_state/apply_recovered_state as restart) and TLC checks every issued stamp against everything the running node has observed for the key",
   note="durability of acknowledged writes assumed (C09/C12); stamps compared per key because the code has one clock per shard"),
+ "C14": dict(
+  technique="TLA+ spec (ImageLayout.tla: byte regions, roles and reader checks of segment / checkpoint / WAL entry images) model-checked with TLC (protection obligations, verdict totality); the CRDT value universe exported from Crdt.tla by TLC is rebuilt as real values and pushed through the four real codecs; real images under every cut and bit flip are read by the real readers and each answer is judged by TLC from the layout arithmetic (ImageTrace.tla)",
+  text="round trip: every replica value of every TLC-exported Crdt.tla configuration (six kinds, tombstones, expiry, vector clocks) plus payload classes (empty, 0x00, 0xff, all 256 bytes, invalid UTF-8, 64 KiB+, odd and 5000-byte keys, u64 limits, 0/1/300 hash fields with deleted fields) and random scenarios, through WalEntry, SegmentWriter/Reader, CheckpointWriter/Reader and GossipMessage JSON, compared structurally on all fields; damage: images of 1-3 updates x every cut length x every single-bit flip x 2-4 byte bursts and zero fills (13k quick / 40k thorough cases) - the reader must answer error wherever the specification's regions are protected, may answer same only on padding/unused bytes, never different, never panic",
+  note="ideal-CRC assumption for <=32-bit bursts; String keys by type; WAL entry stamp judged under C10; compression off"),
  "C15": dict(
   technique="TLA+ spec (Resp.tla: Decode/Encode over byte sequences) model-checked with TLC over every string up to a bound (Total, Stable, RoundTrip); both real decoders, the incremental codec under every fragmentation and the three encoders run on enumerated/targeted/random inputs and every outcome is judged by TLC (RespTrace.tla)",
   text="every byte string of length <= 4 (thorough 5) over the 11-symbol grammar alphabet, targeted length/limit/nesting families (in a separate process so that a stack overflow or runaway allocation is observed as a verdict), every 3-way fragmentation of five valid streams, thousands of value trees through all three encoders, and 0.3-3 million random strings (panic and allocation bound on all, TLC verdict on a sample)",
